@@ -122,6 +122,7 @@ func init() {
 	regRT("Observe", func(ip *Interp, fr *frame, args []Value) Value {
 		if len(ip.ex.observed) < 32 {
 			ip.ex.observed = append(ip.ex.observed, argName(ip, args[0])+"="+ip.show(args[1]))
+			ip.ex.obsVals = append(ip.ex.obsVals, obsRec{argName(ip, args[0]), args[1]})
 		}
 		return nil
 	})
